@@ -108,6 +108,7 @@ package api
 //@ // GJclaim: proof-mode constant. 1 = the C13 claim is being made (jitter percentage in range, bounded underlying
 //@ // rate); 0 = no assumption about the jitter argument (C14: any value the user passes must still yield a usable function).
 //@ ghost var GJclaim int
+//@ ghost var GJevals int
 //@ pred jitterConsts(m real) = 0.000001 <= m && m <= 99.0 && GJj == (m / 100.0) * (1.0 + 1.0 / 1048576.0) &&
 //@     0 <= GJrmax && GJrmax <= 17592186044416 && GJB * (1.0 - GJj) >= GJj * real(GJrmax) + 1.0 && 1.0 <= GJB && GJB <= 2251799813685248.0
 //@
@@ -116,19 +117,20 @@ package api
 //@   ensures 0 <= r && r <= GJrmax
 //@
 //@ func WithJitter$1
-//@   props C13
+//@   props C13 C09
 //@   dyncall rate : boundedRate
 //@   requires GJclaim == 1
 //@   inv rate != nil
 //@   inv GJclaim == 1 ==> jitterConsts(multiple)
 //@   inv GJclaim == 1 ==> (balance == real(GJin - GJout) && abs(balance) <= GJB)
-//@   ghost after call dyn:rate : GJin = GJin + ret0 ; GJreq = real(ret0) + balance
+//@   ghost after call dyn:rate : GJin = GJin + ret0 ; GJreq = real(ret0) + balance ; GJevals = GJevals + 1
 //@   assert before call math.Round : [factor] abs(variationFactor - 1.0) <= GJj
 //@   ghost before call math.Round : rewrite [req-exact] requestedRate = GJin - GJout
 //@   assert before call math.Round : [req-is] requestedRate == GJreq && abs(requestedRate) <= GJB + real(GJrmax)
 //@   assert before call math.Round : [proposed] abs(proposed - requestedRate) <= GJj * abs(requestedRate) + 1.0 / 1048576.0
 //@   ghost at exit : GJout = GJout + result
-//@   modifies balance, GJin, GJout, GJreq
+//@   modifies balance, GJin, GJout, GJreq, GJevals
+//@   ensures {C09,C13} [the-underlying-rate-is-evaluated-once-per-call] GJevals == old(GJevals) + 1
 //@   ensures [nonneg] result >= 0
 //@   ensures [single-value] GJreq >= 0.0 ==> abs(real(result) - GJreq) <= GJj * GJreq + 0.5 + 1.0 / 1048576.0
 //@   ensures [clamped] GJreq < 0.0 ==> result == 0
